@@ -903,14 +903,21 @@ def switch_labels(body, bi, t, alpha):
                     labs.add(lab)
         if len(labs) == 1 and len(cur) == 1:
             lab = next(iter(labs))
+            suffix = ""
+            if getattr(alpha, "bool_srcs", False):
+                # what the predicate is applied to (`res.is_err()` with `res` the outcome of the labelled call / await)
+                pt = body.call_at(next(iter(cur)))
+                if pt["args"]:
+                    ss = _src_labels(body, body.origins(pt["args"][0]), alpha)
+                    suffix = ("@" + "|".join(sorted(ss))) if ss else "@?"
             for (val, _b) in t["targets"]:
                 v = int(val) != 0
-                labels[val] = "bool:%s=%d" % (lab, int(v != neg))
+                labels[val] = "bool:%s=%d%s" % (lab, int(v != neg), suffix)
             # otherwise = the other value(s)
             vals = {int(v) != 0 for (v, _) in t["targets"]}
             if len(vals) == 1:
                 ov = not next(iter(vals))
-                labels["otherwise"] = "bool:%s=%d" % (lab, int(ov != neg))
+                labels["otherwise"] = "bool:%s=%d%s" % (lab, int(ov != neg), suffix)
     return labels
 
 
